@@ -1112,7 +1112,8 @@ class UWG(object):
         if value is None:
             self._flr_h = value
         else:
-            self._flr_h = float_positive(value, 'flr_h')
+            # strictly positive: the floor height divides the building height
+            self._flr_h = utilities.float_in_range_excl(value, 0, input_name='flr_h')
 
     @property
     def ref_bem_vector(self):
